@@ -187,8 +187,11 @@ class C01(Check):
                     bad.append(('kwargs-values', f'handler kwargs {kw!r}, filters give {exp!r}: {ctx}'))
                 if op[0] == 'W':
                     status, allow, calls = run.wsgi_raw(op[1], op[2])
-                    if status != 200 or len(calls) != 1 or calls[0][2] != exp:
-                        bad.append(('wsgi-kwargs', f'through WSGI: status {status} calls {calls!r}, expected kwargs {exp!r}: {ctx}'))
+                    if status == 404:
+                        bad.append(('false-404', f'through WSGI: rule {pat!r} matches, answered 404: {ctx}'))
+                    elif status == 200 and (len(calls) != 1 or calls[0][2] != exp):
+                        # (which handler / 405 is C02's business)
+                        bad.append(('wsgi-kwargs', f'through WSGI: calls {calls!r}, expected kwargs {exp!r}: {ctx}'))
         return bad
 
     def search(self, rng, n, seeds):
